@@ -161,12 +161,23 @@ def _run(V, work, tier):
             f = r["format"][mode]
             if f["ok"] or f.get("len_out", 0) > 0:
                 V.add(None, "input rejected by the reader produced formatter output (%s)" % mode, {"text": t})
-    text = "".join(json.dumps(c, separators=(",", ":")) + "\n" for c in cases)
     verdicts = {}
 
     def vsink(rec):
         verdicts[rec["id"]] = rec
-    res2 = run_tlc(work, "Format", CFG, files={"fmtcases.ndjson": text}, timeout=3300, line_sink=vsink)
+    # every pair is one initial state holding both token streams: TLC gets them in portions (450,000 at once exhausted its heap)
+    res2 = None
+    for k in range(0, max(len(cases), 1), 40000):
+        text = "".join(json.dumps(c, separators=(",", ":")) + "\n" for c in cases[k:k + 40000])
+        r2 = run_tlc(work, "Format", CFG, files={"fmtcases.ndjson": text}, timeout=3300, line_sink=vsink)
+        if r2.error or r2.violated:
+            raise MachineryError("TLC failed on Format.tla: %s %s" % (r2.violated, (r2.error or "")[:400]))
+        if res2 is None:
+            res2 = r2
+        else:
+            res2.distinct += r2.distinct
+            res2.generated += r2.generated
+            res2.wall += r2.wall
     V.tlc(res2, "Format: %d (input, output) pairs decided by the specification" % len(cases))
     if len(verdicts) != len(cases):
         raise MachineryError("Format.tla decided %d of %d pairs" % (len(verdicts), len(cases)))
